@@ -149,20 +149,23 @@ def ExpireFullStatement : Prop :=
     checkTxExpire (ETx.expired txHeightOn height blocktime) segs.flatten
       = some ((segs.filter (fun s => !s.any (trulyExpired txHeightOn height blocktime))).flatten)
 
-/-- witness (repaired code): a group of two with `Expire = 5` at height 10 whose `Header` (the group
-hash, e.g. `0a1e7936…`) decodes as a `Transactions` message holding one garbage transaction with
-`Expire = 0`. About 1 in 6.5 million hashes do; `h_c30` rebuilds such a group from a ground nonce. -/
+/-- witness: a group of two with `Expire = 5` at height 10 whose `Header` decodes as a
+`Transactions` message of exactly two members, both carrying `GroupCount = 2` and `Expire = 0` —
+what `isPackedGroupOf` accepts.  Such a 32-byte string exists on the real decoder (for instance
+`0a0e 4002 120a<10 bytes>` twice; `h_c30` decodes it and runs `CheckTxExpire` on members carrying it
+as a *forged* Header, differential only).  As a SHA-256 group hash it needs two `0a` tags, two
+matching `40 02` count fields and consistent lengths, i.e. of the order of 2^48 hash trials: not
+exhibited, and not excluded. -/
 def expireWitness : List (List ETx) :=
-  [[⟨1, 2, 5, some [0]⟩, ⟨2, 2, 5, some [0]⟩]]
+  [[⟨1, 2, 5, some [(2, 0), (2, 0)]⟩, ⟨2, 2, 5, some [(2, 0), (2, 0)]⟩]]
 
 theorem expireWitness_wf : ∀ s ∈ expireWitness, WellFormedSeg s := by
   intro s hs
   simp [expireWitness] at hs; subst hs
   right; simp
 
-/-- The full statement is **still false of the model and of the repaired code** (replayed on the
-implementation by `h_c30`'s witness section; known finding
-`C30|CheckTxExpire|expired-group-kept-when-group-hash-parses-as-nonempty-group`). -/
+/-- The full statement is **false of the model** (and of the code on a forged Header; no group whose
+real hash decodes this way has been exhibited after the repair 879d416, so no finding is recorded). -/
 theorem expire_removes_whole_groups_full_false : ¬ ExpireFullStatement := by
   intro h
   have := h false 10 1600000000 expireWitness expireWitness_wf
@@ -170,10 +173,12 @@ theorem expire_removes_whole_groups_full_false : ¬ ExpireFullStatement := by
   revert this
   decide
 
-/-- regression statement for the repair c2f0f61: a group whose hash decodes as an *empty* message
-(about 1 in 500 hashes) was kept by the old `IsExpire` and is removed as a whole by the repaired one. -/
-theorem expire_empty_header_regression :
-    let w : List (List ETx) := [[⟨1, 2, 5, some []⟩, ⟨2, 2, 5, some []⟩]]
+/-- regression statement for the repairs c2f0f61 / 879d416: a group whose hash decodes as an *empty*
+message (about 1 in 500 hashes) or as a message with one garbage transaction (about 1 in 6.5
+million; found by grinding, head hash `0a1e7936…`) was kept by the old `IsExpire` and is removed as
+a whole by the repaired one. -/
+theorem expire_decodable_header_regression (hd : List (Int × Int)) (h : hd = [] ∨ hd = [(0, 0)]) :
+    let w : List (List ETx) := [[⟨1, 2, 5, some hd⟩, ⟨2, 2, 5, some hd⟩]]
     checkTxExpire (fun t => decide ((10 : Int) > 0) && decide ((1600000000 : Int) > 0) &&
         t.isExpireOld false 10 1600000000) w.flatten = some w.flatten ∧
     checkTxExpire (ETx.expired false 10 1600000000) w.flatten = some [] := by
@@ -183,14 +188,13 @@ theorem expire_empty_header_regression :
     simp [w] at hs; subst hs
     right; simp
   rw [expire_removes_whole_groups _ _ wf, expire_removes_whole_groups _ _ wf]
-  decide
+  rcases h with rfl | rfl <;> decide
 
-/-- What does hold: when no member's `Header` decodes as a group **with at least one transaction**
-(`hdr = none` or `hdr = some []`; all but about 1 in 6.5 million group hashes) the full statement
-holds. -/
+/-- What does hold: when no member's `Header` decodes as that member's own packed group — a group of
+exactly `GroupCount` members all carrying `GroupCount` — the full statement holds. -/
 theorem expire_removes_whole_groups_partial (txHeightOn : Bool) (height blocktime : Int)
     (segs : List (List ETx)) (h : ∀ s ∈ segs, WellFormedSeg s)
-    (hdr : ∀ s ∈ segs, ∀ t ∈ s, t.hdr = none ∨ t.hdr = some []) :
+    (hdr : ∀ s ∈ segs, ∀ t ∈ s, ∀ ms, t.hdr = some ms → isPackedGroupOf ms t.gc = false) :
     checkTxExpire (ETx.expired txHeightOn height blocktime) segs.flatten
       = some ((segs.filter (fun s => !s.any (trulyExpired txHeightOn height blocktime))).flatten) := by
   rw [checkTxExpire_segs _ _ h]
@@ -200,16 +204,19 @@ theorem expire_removes_whole_groups_partial (txHeightOn : Bool) (height blocktim
   congr 1
   apply any_congr_mem
   intro t ht
-  rcases hdr s hs t ht with h0 | h0 <;> simp [ETx.expired, ETx.isExpire, trulyExpired, h0]
+  cases h0 : t.hdr with
+  | none => simp [ETx.expired, ETx.isExpire, trulyExpired, h0]
+  | some ms => simp [ETx.expired, ETx.isExpire, trulyExpired, h0, hdr s hs t ht ms h0]
 
-/-- non-vacuity of the weakened hypothesis: a segment whose members carry an empty decoded header -/
-example : ∀ s ∈ ([[⟨1, 2, 5, some []⟩, ⟨2, 2, 5, some []⟩], [⟨3, 0, 0, none⟩]] : List (List ETx)),
-    ∀ t ∈ s, t.hdr = none ∨ t.hdr = some [] := by
-  intro s hs t ht
+/-- non-vacuity of the hypothesis: members whose Header does not decode, decodes as an empty message,
+or decodes as one garbage transaction -/
+example : ∀ s ∈ ([[⟨1, 2, 5, some []⟩, ⟨2, 2, 5, some [(0, 0)]⟩], [⟨3, 0, 0, none⟩]] : List (List ETx)),
+    ∀ t ∈ s, ∀ ms, t.hdr = some ms → isPackedGroupOf ms t.gc = false := by
+  intro s hs t ht ms hms
   simp at hs
   rcases hs with rfl | rfl <;> simp at ht
-  · rcases ht with rfl | rfl <;> simp
-  · subst ht; simp
+  · rcases ht with rfl | rfl <;> (simp at hms; subst hms; decide)
+  · subst ht; simp at hms
 
 example : ∀ s ∈ ([[⟨1, 0, 5, none⟩], [⟨2, 2, 0, none⟩, ⟨3, 2, 5, none⟩], [⟨4, 0, 0, none⟩]] : List (List ETx)),
     WellFormedSeg s := by
